@@ -1,3 +1,153 @@
 import Holpy.Common.Sexp
-/- stub: replaced when the C05 model is built -/
-def main : IO Unit := Holpy.lineLoop (fun _ => "bad-op")
+import Holpy.C05.Model
+/-
+Line protocol for the C05 model (one s-expression in, one out):
+  (nat_eval E)   -> (ok N) | (err KIND)
+  (int_eval E)   -> (ok NUM) | (err KIND)
+  (real_eval E)  -> (ok NUM) | (err KIND)
+  (macro NAME E) -> (ok E') | (err KIND)          E' = the asserted statement
+  (den E)        -> none | (n K) | (i K) | (q NUM DEN) | (b T|F)     (atoms: no value)
+  (wt E)         -> T | F
+NUM = (int K) | (frac NUM DEN)
+E   = (zero T) (one T) (bit0 E) (bit1 E) (suc E) (ofnat T E) (ofint E) (plus T E E) (minus T E E)
+      (times T E E) (uminus T E) (divide E E) (inverse E) (power T E E) (eq T E E)
+      (lt T E E) (le T E E) (gt T E E) (ge T E E) (neg E) tru fls (atom T ID T|F)
+T   = nat | int | real | bool | other
+-/
+open Holpy Holpy.C05
+
+namespace Holpy.C05.Driver
+
+def tyOf : Sexp → Option Ty
+  | .atom "nat" => some .nat
+  | .atom "int" => some .int
+  | .atom "real" => some .real
+  | .atom "bool" => some .bool
+  | .atom "other" => some .other
+  | _ => none
+
+def tyTo : Ty → Sexp
+  | .nat => .atom "nat"
+  | .int => .atom "int"
+  | .real => .atom "real"
+  | .bool => .atom "bool"
+  | .other => .atom "other"
+
+partial def exprOf : Sexp → Option AExpr
+  | .atom "tru" => some .tru
+  | .atom "fls" => some .fls
+  | .list [.atom "zero", t] => do some (.zero (← tyOf t))
+  | .list [.atom "one", t] => do some (.one (← tyOf t))
+  | .list [.atom "bit0", a] => do some (.bit0 (← exprOf a))
+  | .list [.atom "bit1", a] => do some (.bit1 (← exprOf a))
+  | .list [.atom "suc", a] => do some (.suc (← exprOf a))
+  | .list [.atom "ofnat", t, a] => do some (.ofNat (← tyOf t) (← exprOf a))
+  | .list [.atom "ofint", a] => do some (.ofInt (← exprOf a))
+  | .list [.atom "plus", t, a, b] => do some (.plus (← tyOf t) (← exprOf a) (← exprOf b))
+  | .list [.atom "minus", t, a, b] => do some (.minus (← tyOf t) (← exprOf a) (← exprOf b))
+  | .list [.atom "times", t, a, b] => do some (.times (← tyOf t) (← exprOf a) (← exprOf b))
+  | .list [.atom "uminus", t, a] => do some (.uminus (← tyOf t) (← exprOf a))
+  | .list [.atom "divide", a, b] => do some (.divide (← exprOf a) (← exprOf b))
+  | .list [.atom "inverse", a] => do some (.inverse (← exprOf a))
+  | .list [.atom "power", t, a, b] => do some (.power (← tyOf t) (← exprOf a) (← exprOf b))
+  | .list [.atom "eq", t, a, b] => do some (.eq (← tyOf t) (← exprOf a) (← exprOf b))
+  | .list [.atom "lt", t, a, b] => do some (.cmp .lt (← tyOf t) (← exprOf a) (← exprOf b))
+  | .list [.atom "le", t, a, b] => do some (.cmp .le (← tyOf t) (← exprOf a) (← exprOf b))
+  | .list [.atom "gt", t, a, b] => do some (.cmp .gt (← tyOf t) (← exprOf a) (← exprOf b))
+  | .list [.atom "ge", t, a, b] => do some (.cmp .ge (← tyOf t) (← exprOf a) (← exprOf b))
+  | .list [.atom "neg", a] => do some (.neg (← exprOf a))
+  | .list [.atom "atom", t, i, v] => do some (.atom (← tyOf t) (← i.toNat?) (← v.toBool?))
+  | _ => none
+
+def cmpName : Cmp → String
+  | .lt => "lt" | .le => "le" | .gt => "gt" | .ge => "ge"
+
+partial def exprTo : AExpr → Sexp
+  | .tru => .atom "tru"
+  | .fls => .atom "fls"
+  | .zero t => .list [.atom "zero", tyTo t]
+  | .one t => .list [.atom "one", tyTo t]
+  | .bit0 a => .list [.atom "bit0", exprTo a]
+  | .bit1 a => .list [.atom "bit1", exprTo a]
+  | .suc a => .list [.atom "suc", exprTo a]
+  | .ofNat t a => .list [.atom "ofnat", tyTo t, exprTo a]
+  | .ofInt a => .list [.atom "ofint", exprTo a]
+  | .plus t a b => .list [.atom "plus", tyTo t, exprTo a, exprTo b]
+  | .minus t a b => .list [.atom "minus", tyTo t, exprTo a, exprTo b]
+  | .times t a b => .list [.atom "times", tyTo t, exprTo a, exprTo b]
+  | .uminus t a => .list [.atom "uminus", tyTo t, exprTo a]
+  | .divide a b => .list [.atom "divide", exprTo a, exprTo b]
+  | .inverse a => .list [.atom "inverse", exprTo a]
+  | .power t a b => .list [.atom "power", tyTo t, exprTo a, exprTo b]
+  | .eq t a b => .list [.atom "eq", tyTo t, exprTo a, exprTo b]
+  | .cmp op t a b => .list [.atom (cmpName op), tyTo t, exprTo a, exprTo b]
+  | .neg a => .list [.atom "neg", exprTo a]
+  | .atom t i v => .list [.atom "atom", tyTo t, Sexp.ofNat i, Sexp.ofBool v]
+
+def errTo : Err → String
+  | .conv => "conv"
+  | .assertion => "assertion"
+  | .term => "term"
+  | .notImpl => "notimpl"
+  | .typing => "typing"
+  | .approx => "approx"
+
+def numTo : Num → Sexp
+  | .int k => .list [.atom "int", Sexp.ofInt k]
+  | .frac q => .list [.atom "frac", Sexp.ofInt q.num, Sexp.ofNat q.den]
+
+def resTo {α} (f : α → Sexp) : Except Err α → String
+  | .ok v => toString (Sexp.list [.atom "ok", f v])
+  | .error e => toString (Sexp.list [.atom "err", .atom (errTo e)])
+
+def macroOf (s : String) : Option Macro := Macro.all.find? (fun m => m.name == s)
+
+def valTo : Option Val → Sexp
+  | none => .atom "none"
+  | some (.n k) => .list [.atom "n", Sexp.ofNat k]
+  | some (.i k) => .list [.atom "i", Sexp.ofInt k]
+  | some (.q r) => .list [.atom "q", Sexp.ofInt r.num, Sexp.ofNat r.den]
+  | some (.b v) => .list [.atom "b", Sexp.ofBool v]
+
+/-- Valuation used by the `den` command: atom `i` is given a value of no numeric type, so any
+expression containing an atom has no denotation there. -/
+def noVal : Nat → Val := fun _ => .b false
+
+def hasAtom : AExpr → Bool
+  | .zero _ | .one _ | .tru | .fls => false
+  | .atom _ _ _ => true
+  | .bit0 a | .bit1 a | .suc a | .ofNat _ a | .ofInt a | .uminus _ a | .inverse a | .neg a => hasAtom a
+  | .plus _ a b | .minus _ a b | .times _ a b | .divide a b | .power _ a b | .eq _ a b
+  | .cmp _ _ a b => hasAtom a || hasAtom b
+
+def handle (line : String) : String :=
+  match Sexp.parse line with
+  | some (.list [.atom "nat_eval", e]) =>
+    match exprOf e with
+    | some x => resTo Sexp.ofNat (natEval x)
+    | none => "bad-op"
+  | some (.list [.atom "int_eval", e]) =>
+    match exprOf e with
+    | some x => resTo numTo (intEval x)
+    | none => "bad-op"
+  | some (.list [.atom "real_eval", e]) =>
+    match exprOf e with
+    | some x => resTo numTo (realEval x)
+    | none => "bad-op"
+  | some (.list [.atom "macro", .atom name, e]) =>
+    match macroOf name, exprOf e with
+    | some m, some x => resTo (fun th => exprTo th.prop) (accept m x)
+    | _, _ => "bad-op"
+  | some (.list [.atom "den", e]) =>
+    match exprOf e with
+    | some x => toString (valTo (if hasAtom x then none else den noVal x))
+    | none => "bad-op"
+  | some (.list [.atom "wt", e]) =>
+    match exprOf e with
+    | some x => toString (Sexp.ofBool (wt x))
+    | none => "bad-op"
+  | _ => "bad-op"
+
+end Holpy.C05.Driver
+
+def main : IO Unit := Holpy.lineLoop Holpy.C05.Driver.handle
